@@ -440,7 +440,10 @@ static Line malformedLine(int which, char pt, const std::string& name, const std
    case 1: l.text = t + ":" + name + " " + vtext; break;
    case 2: l.text = t + ":" + name + " = "; break;
    case 3: l.text = t + ":" + name + " = " + vtext + " " + vtext; break;
-   case 4: l.text = t + ":" + name + "_nosuch = " + vtext; break;
+   case 4:
+      l.text = t + ":" + name + "_nosuch = " + vtext;
+      if(pt == 'u') l.cls = "name-suffix";       // "uint:random_seed_nosuch": no such parameter either
+      break;
    case 5: l.text = std::string(pt == 'b' ? "int" : "bool") + ":" + name + " = " + vtext; break;
    case 6: l.text = "float:" + name + " = " + vtext; break;
    case 7: l.text = t; break;
@@ -880,7 +883,7 @@ struct Ctx
       {
          viol(base + ":crash-" + sigName(e.sig), std::string("the call dies with ") + sigName(e.sig) + " (observed in a forked probe; the call was not repeated in the worker)", input);
          sink().count("viol.crash");
-         nviolOps++;
+         heal();
          return;
       }
       if(e.threw)
@@ -961,6 +964,19 @@ struct Ctx
          buf.push_back('\0');
          return s->parseSettingsString(buf.data());
       }, risky);
+      if(l.kind == 2 && (l.cls == "bare-type" || l.cls == "name-only"))
+      {
+         // the text ends right after the type / the name: the parser steps over the terminating NUL; whatever happens
+         // then (stale bytes of an earlier call) has one root cause and one key
+         std::vector<Mis> d = e.crashed || e.threw ? std::vector<Mis>() : diffAll();
+         if(e.crashed || e.threw || e.ret || !d.empty())
+         {
+            viol("C15:parseSettingsString:-:" + l.cls + ":reads-past-end", "parseSettingsString(\"" + l.text + "\") must fail without effect; observed: " +
+                 (e.crashed ? std::string("crash ") + sigName(e.sig) : e.threw ? "exception " + e.extype : std::string(e.ret ? "returned true" : "returned false") + (d.empty() ? "" : "; " + d[0].detail)), l.text);
+            heal();
+         }
+         return;
+      }
       if(e.threw)
       {
          viol(std::string("C15:exception:parseSettingsString:") + typeWord(l.ptype) + "-value:" + e.extype,
@@ -1009,11 +1025,19 @@ struct Ctx
       Exec e = runProbed([ = ]() { return s->loadSettingsFile(path.c_str()); }, risky);
       unlink(path.c_str());
       std::string base = "C15:loadSettingsFile:" + pn + ":" + cl;
+      bool truncated = special && special->kind == 2 && (special->cls == "bare-type" || special->cls == "name-only");
       if(e.crashed)
       {
          viol(base + ":crash-" + sigName(e.sig), std::string("loadSettingsFile dies with ") + sigName(e.sig) + " (forked probe)", content);
          S.count("viol.crash");
-         // the model already contains the effect of the lines: rebuild the object from it minus the special line
+         heal();      // the model holds the predicted effect of all lines: rebuild the object from it
+         return;
+      }
+      std::vector<Mis> d = e.threw ? std::vector<Mis>() : diffAll();
+      if(truncated && (e.threw || e.ret != expRet || !d.empty()))
+      {
+         viol("C15:loadSettingsFile:-:" + special->cls + ":reads-past-end", "a line that ends right after the type / the name must be skipped with a message; observed: " +
+              (e.threw ? "exception " + e.extype : std::string(e.ret ? "returned true" : "returned false") + (d.empty() ? "" : "; " + d[0].detail)), content);
          heal();
          return;
       }
@@ -1021,7 +1045,8 @@ struct Ctx
       {
          const Line* cul = nullptr;
          for(auto& l : lines) if(l.kind == 0 && (!l.parsable || (l.ptype == 'r' && l.rv != 0 && std::fabs(l.rv) < 2.3e-308))) { cul = &l; break; }
-         viol(std::string("C15:exception:loadSettingsFile:") + (cul ? typeWord(cul->ptype) : "unknown") + "-value:" + e.extype,
+         std::string site = missingFile ? "missing-file" : cul ? std::string(typeWord(cul->ptype)) + "-value" : "unknown";
+         viol("C15:exception:loadSettingsFile:" + site + ":" + e.extype,
               "exception " + e.extype + " escapes loadSettingsFile (documented failure mode is a message and the bool return)" + (cul ? "; line <" + cul->text + ">" : ""), content);
          heal();
          return;
@@ -1032,10 +1057,23 @@ struct Ctx
          viol(base + (e.ret ? ":returned-true" : ":returned-false"), std::string("loadSettingsFile returned ") + (e.ret ? "true" : "false") + ", documented behaviour predicts " + (expRet ? "true" : "false"), content);
          bad = true;
       }
-      std::vector<Mis> d = diffAll();
-      std::set<std::string> keys;
+      std::set<std::string> keys, explained;
+      // lines that must be rejected but whose value arrived in the parameter
       for(auto& x : d)
       {
+         if(x.kind != "value" && x.kind != "seed") continue;
+         const Line* tl = nullptr;
+         for(auto& l : lines) if(l.kind == 0 && l.pname == x.param) tl = &l;
+         if(!tl) continue;
+         Model tmp = m;
+         if(tl->parsable && predLine(tmp, *tl)) continue;
+         explained.insert(x.param);
+         std::string key = "C15:loadSettingsFile:" + tl->pname + ":" + tl->cls + ":accepted";
+         if(keys.insert(key).second) viol(key, "line <" + tl->text + "> must be rejected without effect: " + x.detail, content);
+      }
+      for(auto& x : d)
+      {
+         if(explained.count(x.param) || (!explained.empty() && x.kind == "lp")) continue;
          const Line* tl = nullptr;
          for(auto& l : lines) if(l.kind == 0 && l.pname == x.param) tl = &l;
          std::string key;
@@ -1043,9 +1081,10 @@ struct Ctx
          {
             Model tmp = m;
             bool lexp = tl->parsable && predLine(tmp, *tl);
-            std::string what = lexp ? (x.kind == "value" || x.kind == "seed" ? "not-stored" : x.kind) : (x.kind == "value" ? "accepted" : "not-atomic");
+            std::string what = lexp ? (x.kind == "value" || x.kind == "seed" ? "not-stored" : x.kind) : "not-atomic";
             key = "C15:loadSettingsFile:" + tl->pname + ":" + tl->cls + ":" + what;
          }
+         else if(special && special->kind == 2) key = "C15:loadSettingsFile:-:" + special->cls + ":accepted";     // a malformed line had an effect
          else key = "C15:loadSettingsFile:" + x.param + ":-:" + (x.kind == "lp" ? "lp-changed" : x.kind == "value" || x.kind == "seed" ? "side-effect" : x.kind);
          if(keys.insert(key).second) viol(key, x.detail, content);
       }
@@ -1276,10 +1315,11 @@ struct Ctx
          sm = dm;
          fromSnap = false;
       }
-      std::string cls = "-";
-      if(m.i[SoPlex::SYNCMODE] == 0 && sm.i[SoPlex::SYNCMODE] == 1) cls = "onlyreal-to-auto";
-      note("setSettings", cls == "-" ? "-" : "syncmode", cls, std::string("setSettings(") + (fromSnap ? "earlier snapshot of settings()" : "settings() of another object") + ", init=" + (init ? "true" : "false") + ")" +
-           (cls == "-" ? "" : " [syncmode only-real -> auto]"));
+      std::string cls = init ? "init" : "noinit";
+      bool o2a = init && m.i[SoPlex::SYNCMODE] == 0 && sm.i[SoPlex::SYNCMODE] == 1;
+      if(o2a) cls = "onlyreal-to-auto";
+      note("setSettings", o2a ? "syncmode" : "-", cls, std::string("setSettings(") + (fromSnap ? "earlier snapshot of settings()" : "settings() of another object") + ", init=" + (init ? "true" : "false") + ")" +
+           (o2a ? " [syncmode only-real -> auto]" : ""));
       // model: all values as in the source; seed is not part of Settings
       int oldSync = m.i[SoPlex::SYNCMODE];
       m.b = sm.b;
@@ -1289,10 +1329,10 @@ struct Ctx
       predInt(m, SoPlex::SYNCMODE, sm.i[SoPlex::SYNCMODE]);
       SoPlex* s = sp.get();
       SoPlex::Settings copy(*src);
-      Exec e = runProbed([ =, &copy]() { return s->setSettings(copy, init); }, cls != "-");
+      Exec e = runProbed([ =, &copy]() { return s->setSettings(copy, init); }, o2a);
       if(e.crashed || e.threw)
       {
-         judgeSingle("setSettings", cls == "-" ? "-" : "syncmode", cls, true, e);
+         judgeSingle("setSettings", o2a ? "syncmode" : "-", cls, true, e);
          return;
       }
       bool bad = false;
@@ -1306,6 +1346,8 @@ struct Ctx
       for(auto& x : d)
       {
          std::string key = "C15:setSettings:" + x.param + ":" + cls + ":" + (x.kind == "value" ? "not-copied" : x.kind == "seed" ? "seed-changed" : x.kind == "lp" ? "lp-changed" : x.kind);
+         // init=false: the values are stored first, so every setter sees "value unchanged" and returns early: one root cause
+         if(!init && x.kind != "value" && x.kind != "seed") key = "C15:setSettings:-:noinit:not-applied";
          if(keys.insert(key).second) viol(key, "after setSettings: " + x.detail);
       }
       if(bad || !d.empty()) heal();
@@ -1341,7 +1383,11 @@ static void randomValidSet(Ctx& c)
    Rng& g = c.g;
    int w = g.range(0, T.nb + T.ni + T.nr - 1);
    bool init = g.chance(0.5);
-   if(w < T.nb) c.setBool(w, g.chance(0.5), init, g.chance(0.5) ? "true" : "false");
+   if(w < T.nb)
+   {
+      bool v = g.chance(0.5);
+      c.setBool(w, v, init, v ? "true" : "false");
+   }
    else if(w < T.nb + T.ni)
    {
       int p = w - T.nb;
@@ -1432,6 +1478,8 @@ static void enumCase(Ctx& c, long long k)
          if(c.dead) break;
          if(base != INT_MIN) c.setInt(p, base, true, "valid");
          std::vector<IV> cl = intClasses(g, p, c.m.i[p]);
+         // rejected classes first: each of them is then tried from the base value (atomicity is judged against it)
+         std::stable_partition(cl.begin(), cl.end(), [&](const IV & x) { return x.cls != "same" && !validInt(p, x.v); });
          for(auto& x : cl)
          {
             if(c.dead) break;
@@ -1453,6 +1501,7 @@ static void enumCase(Ctx& c, long long k)
       {
          if(base == 1) c.setReal(p, randomValidReal(g, p, c.m.r[p]), true, "valid");
          std::vector<RV> cl = realClasses(g, p, c.m.r[p]);
+         std::stable_partition(cl.begin(), cl.end(), [&](const RV & x) { return x.cls != "same" && !validReal(p, x.v); });
          for(auto& x : cl)
          {
             if(c.dead) break;
@@ -1524,7 +1573,11 @@ static Line randomLine(Ctx& c, bool forFile, double pSpecial)
    int w = g.range(0, T.nb + T.ni + T.nr + 1);
    if(w < T.nb)
    {
-      if(special && g.chance(0.3)) return badValueLine('b', w, g.chance(0.5) ? "bool-garbage" : "bool-number", g.chance(0.5) ? "yes" : "2", L, forFile);
+      if(special && g.chance(0.3))
+      {
+         bool num = g.chance(0.5);
+         return badValueLine('b', w, num ? "bool-number" : "bool-garbage", num ? "2" : "yes", L, forFile);
+      }
       if(special && g.chance(0.3)) return malformedLine(g.range(0, NMALFORMED - 1), 'b', T.bn[w], "true");
       return boolLine(w, g.chance(0.5), g.range(0, 5), L, forFile);
    }
